@@ -118,7 +118,47 @@ const prop_def prop_C06 = { "C06", NULL, c06_run, qprog_counter_names,
 	"non-trivial: a suspend/resume or activation happened, >=2 items completed, and a pre-emption/stall was taken inside a queue's atomics; distinct = distinct schedule signatures among those" };
 
 /* ---- C10: dispatch_apply ---- */
+// iteration counts around the library's internal limits (DISPATCH_APPLY_MAX = 65535 participants / nesting product),
+// top level and nested inside an iteration of an outer apply: too many for the item table of the queue programs, so
+// the invocations are counted in a byte per index
+static struct { unsigned char *cnt; size_t n; int who, inner_done; dispatch_queue_t iq; } HG;
+static void huge_inner(void *ctx, size_t i) {
+	(void)ctx;
+	if (i >= HG.n) h_viol("apply-index", "dispatch_apply(%zu) invoked index %zu", HG.n, i);
+	__atomic_add_fetch(&HG.cnt[i], 1, __ATOMIC_RELAXED);
+}
+static void huge_check(const char *where) {
+	size_t missing = 0, twice = 0, first = HG.n;
+	for (size_t i = 0; i < HG.n; i++) { if (HG.cnt[i] == 0) { missing++; if (first == HG.n) first = i; } else if (HG.cnt[i] > 1) { twice++; if (first == HG.n) first = i; } }
+	if (missing || twice) h_viol("apply-count", "%s dispatch_apply(%zu) returned with %zu indices never invoked and %zu invoked more than once (first: %zu)", where, HG.n, missing, twice, first);
+}
+static void huge_outer(void *ctx, size_t i) {
+	(void)ctx;
+	if ((int)i != HG.who) { sim_point(); return; }
+	dispatch_apply_f(HG.n, HG.iq, NULL, huge_inner);
+	huge_check("a nested");
+	HG.inner_done = 1;
+}
+static void c10_huge(void) {
+	static const size_t ns[] = { 65534, 65535, 65536, 65537, 70000, 131072 };
+	memset(&HG, 0, sizeof HG);
+	HG.n = ns[g_n(6)]; HG.cnt = malloc(HG.n); memset(HG.cnt, 0, HG.n);   // (not calloc: that one is behind the allocation-fault seam)
+	int nested = g_chance(2, 3), outer_n = g_range(2, 4), oqk = (int)g_n(2), iqk = (int)g_n(4);
+	HG.who = (int)g_n((uint32_t)outer_n);
+	dispatch_queue_t oq = oqk ? dispatch_queue_create("c10-outer", DISPATCH_QUEUE_CONCURRENT) : dispatch_get_global_queue(0, 0);
+	HG.iq = iqk == 0 ? DISPATCH_APPLY_AUTO : iqk == 1 ? dispatch_get_global_queue(0, 0) : iqk == 2 ? dispatch_queue_create("c10-inner", DISPATCH_QUEUE_CONCURRENT) : dispatch_queue_create("c10-inner-serial", NULL);
+	h_sample("dispatch_apply(%zu) on %s%s\n", HG.n, iqk == 0 ? "DISPATCH_APPLY_AUTO" : iqk == 1 ? "a global queue" : iqk == 2 ? "a private concurrent queue" : "a private serial queue",
+		nested ? (oqk ? ", from one iteration of an outer apply on a private concurrent queue" : ", from one iteration of an outer apply on a global queue") : ", top level");
+	h_announce();
+	if (nested) {
+		dispatch_apply_f((size_t)outer_n, oq, NULL, huge_outer);
+		if (!HG.inner_done) h_viol("apply-return", "the outer dispatch_apply returned before the iteration holding the nested apply had finished");
+	} else { dispatch_apply_f(HG.n, HG.iq, NULL, huge_inner); huge_check("a top-level"); }
+	RES.counters[QC_APPLY_ITERS] = (int64_t)HG.n; RES.counters[QC_SYNC_CALLS] = 1;
+	RES.nontrivial = sim_st.switches > 2;
+}
 static void c10_run(void) {
+	if (g_chance(1, 40)) { c10_huge(); return; }
 	qgen g; qgen_defaults(&g);
 	g.oracles = O_ONCE | O_HIER | O_BARRIER;
 	g.opmask = (1u << OP_APPLY) | (1u << OP_APPLY) | (1u << OP_ASYNC) | (1u << OP_BARRIER_ASYNC) | (1u << OP_SYNC);
